@@ -12,7 +12,7 @@
     [ProofExp.instantiate] cannot be serialised at all, C08-D10).  The checker is
     [ML/Machine.v] with [guards_sound]. *)
 From Coq Require Import NArith List Bool.
-From Pi2 Require Import ML.Syntax ML.Subst ML.Machine PTerm.Model PTerm.Facts PTerm.MapSym PTerm.Compile Gen.C02Shipped.
+From Pi2 Require Import ML.Syntax ML.Subst ML.Machine PTerm.Model PTerm.Facts PTerm.MapSym PTerm.Compile PTerm.LibWf Gen.C02Shipped.
 Import ListNotations.
 Open Scope N_scope.
 
@@ -38,6 +38,17 @@ Theorem C02_module_accepted : forall memo m g c p,
   exists st, verify guards_sound g c p = Some st.
 Proof. exact module_accepted. Qed.
 Print Assumptions C02_module_accepted.
+
+(** the premise [wf_for_checker] is discharged generically on the propositional fragment (no
+    Quantifier axiom; plugs and loaded axioms without substitution nodes, metavariables
+    unconstrained, Mu positive): all of [Propositional] over such argument patterns *)
+Theorem C02_lib_wf : forall axs t c, simple_term t = true -> static_conc axs t = Some c ->
+  wf_for_checker axs t = true /\ dynamic t = true.
+Proof. exact lib_wf. Qed.
+Print Assumptions C02_lib_wf.
+Example C02_lib_wf_covers_shipped_propositional :
+  forallb simple_term (m_proofs m_propositional) = true /\ forallb simple_term (m_proofs m_small_theory) = true.
+Proof. vm_compute. split; reflexivity. Qed.
 
 (** ** Refutations of the unrestricted statement: toolkit accepts, checker rejects *)
 Definition toolkit_accepts_checker_rejects (m:pmodule) : Prop :=
